@@ -88,9 +88,9 @@ async def run_schedule(sc):
         agents[ip] = make_agent(mk_mib(i), proto, engine=b"\x80\x00\x1f\x88\x80engine%d" % i, boots=3 + i, clock=lambda: clock[0])
         from puresnmp import Client
         clients.append(Client(ip, creds_for(proto), sender=gate.sender))
-    real_t, real_u = _t.time, U.time
-    _t.time = lambda: clock[0]
-    U.time = lambda: clock[0]
+    import puresnmp.api.raw, puresnmp_plugins.security.usm  # noqa
+    _clk = patched_clock(lambda: clock[0])
+    _clk.__enter__()
     tasks = {}
     try:
         late = sc.get("late", {})          # op key -> number of releases after which the operation is started
@@ -131,7 +131,7 @@ async def run_schedule(sc):
             else:
                 events.append(dict(e="ret", op=key, kind="result", result=res_repr(t.result())))
     finally:
-        _t.time, U.time = real_t, real_u
+        _clk.__exit__(None, None, None)
     return events
 
 
